@@ -108,3 +108,18 @@ Definition agree_total (c : lg_case) : bool :=
       | _, _ => false
       end
   end.
+
+(* ---------- compact constructors for the case files (argument scopes follow the argument types) ---------- *)
+Definition eT (n : Z) (d : positive) (m : list Z) : entry := mkEntry OkTrue (Qmake n d) m.
+Definition eF (n : Z) (d : positive) (m : list Z) : entry := mkEntry OkFalse (Qmake n d) m.
+Definition eP (n : Z) (d : positive) (m : list Z) : entry := mkEntry OkPartial (Qmake n d) m.
+Definition o1 (z : Z) : ginput Z := GOne z.
+Definition om (l : list Z) : ginput Z := GMany l.
+Definition sb (g : nat) (x : ginput Z) : nat * ginput Z := (g, x).
+Definition rw (g a : nat) (x : ginput Z) (s : option (list (nat * ginput Z))) (o : option entry) : rec_row :=
+  (g, a, x, s, o).
+Definition cfg (ordered partial sublist : bool) (nsubs : nat) (grouping : list nat) : lgcfg :=
+  mkLgCfg ordered partial sublist nsubs grouping.
+Definition mkcase (g : gtree) (a : atree) (xs : list Z) (tbl : list rec_row)
+           (performs : option (list (list entry))) (out : option (list entry)) : lg_case :=
+  (g, a, xs, tbl, performs, out).
